@@ -91,14 +91,14 @@ func jDestroyWorld() {
 
 // JobSpec is the harness-level description of a copy job.
 type JobSpec struct {
-	Sources     []string `json:"sources"` // abstract dataset names; >1 = UnionDatasetSource
-	Union       bool     `json:"union,omitempty"`
-	LatestOnly  bool     `json:"latest_only,omitempty"`
-	Sink        string   `json:"sink"`
-	JobType     string   `json:"job_type"` // incremental | fullsync
-	BatchSize   int      `json:"batch_size"`
-	JS          string   `json:"js,omitempty"` // javascript transform code (plain text)
-	Parallelism int      `json:"parallelism,omitempty"`
+	Sources     []string                 `json:"sources"` // abstract dataset names; >1 = UnionDatasetSource
+	Union       bool                     `json:"union,omitempty"`
+	LatestOnly  bool                     `json:"latest_only,omitempty"`
+	Sink        string                   `json:"sink"`
+	JobType     string                   `json:"job_type"` // incremental | fullsync
+	BatchSize   int                      `json:"batch_size"`
+	JS          string                   `json:"js,omitempty"` // javascript transform code (plain text)
+	Parallelism int                      `json:"parallelism,omitempty"`
 	OnError     []map[string]interface{} `json:"on_error,omitempty"`
 	// Mixed: the job has a second trigger of the other job type (an incremental job with a periodic fullsync,
 	// both sharing the job's continuation token)
@@ -119,8 +119,8 @@ func (j *JWorld) jobConfig(h *server.VHist, id string, sp JobSpec) (*JobConfigur
 	}
 	cfg := map[string]interface{}{
 		"id": id, "title": id, "paused": true, "batchSize": sp.BatchSize,
-		"source": src,
-		"sink":   map[string]interface{}{"Type": "DatasetSink", "Name": h.DsName(sp.Sink)},
+		"source":   src,
+		"sink":     map[string]interface{}{"Type": "DatasetSink", "Name": h.DsName(sp.Sink)},
 		"triggers": []interface{}{map[string]interface{}{"triggerType": "cron", "jobType": sp.JobType, "schedule": "0 0 1 1 *", "onError": sp.OnError}},
 	}
 	if sp.Mixed {
